@@ -139,6 +139,19 @@ CLAIMED = {
         note=TRUST + "Reconstruction to numerical precision, isometry, ordering and sign conventions are LAPACK's contract: ASSUMED, listed under not_decided in the evidence. eig and low-rank policies not covered.",
         technique='AST-to-SMT symbolic execution of the real factorisation glue against structural contracts; LAPACK kernels as assumed contracts with checked preconditions',
     ),
+    'C06': dict(
+        category='proof',
+        text=("FACTOR and INDEX bookkeeping over the abstract state view state(psi) = factor*prod(scales)*word. The real __mul__/__rmul__/__neg__/"
+              "__truediv__ give state(r) = number*state(psi) for every real number incl. 0 and negative, with a non-negative factor and the operand "
+              "untouched; conj/transpose/conjugate_transpose touch every site exactly once with the right operation and keep factor and central "
+              "block; reverse_sites maps site n to N-1-n with virtual legs swapped, mirrors the central-block bond, and is an involution; add "
+              "multiplies each amplitude by its state's factor exactly once (first site), assembles blocks at positions (j,)/(j,j)/(j,) with the "
+              "right common legs, N = 1 sums directly, mismatches rejected; multiply gives factor = f_a*f_b, site n = product of sites n contracted "
+              "over (3,1) with pairwise-fused virtual legs, central blocks / MPS-on-the-left rejected. N = 1..5 (quick) / 1..7 (thorough), MPS and MPO."),
+        design_ref='DESIGN.md §5 C06',
+        note="Trusted: pyvc, z3 (polynomial reals), ghost contracts: block = direct sum, tensordot+fuse_legs = product (tensor level: C01, C03), contraction multilinear. Complex amplitudes not modelled. NOT decided: measure_overlap/measure_mpo, zipper, compression, product states, mps_from_tensor represent the dense object (Env2, floating point).",
+        technique='symbolic execution of the real MPS algebra on ghost tensors; state equality as real-scalar VC + structural comparison',
+    ),
     'C08': dict(
         category='proof',
         text=("BOOKKEEPING clauses. The real orthogonalize_site_, diagonalize_central_, absorb_central_, canonize_, truncate_, norm (and "
